@@ -479,7 +479,8 @@ def eligible_fragments(path):
                                                 and isinstance(n.op, ast.Not))
         simple = all(isinstance(c, (ast.Name, ast.Constant, ast.Attribute, ast.expr_context))
                      for c in ast.walk(n))
-        out.append((text, size, stores, rawself, topbool, simple, type(n).__name__))
+        trigger = D.has_rewrite_trigger(n)
+        out.append((text, size, stores, rawself, topbool, simple, type(n).__name__, trigger))
     return tuple(out)
 
 
@@ -525,7 +526,14 @@ def judge_fragment(case):
     if not frags:
         out.cls("frag:no-eligible-expression")
         return out
-    text, size, stores, rawself, topbool, simple, tname = frags[case["node"] % len(frags)]
+    if case.get("prefer_rewrite"):
+        # half of the draws prefer sub-trees containing a documented-rewrite trigger
+        # (ego/workspace/globalParameters, str/int/float, starred call argument, `@`)
+        trig = [f for f in frags if f[7]]
+        if trig:
+            frags = trig
+            out.cls("frag:with-rewrite-trigger")
+    text, size, stores, rawself, topbool, simple, tname, _ = frags[case["node"] % len(frags)]
     ctx = case["ctx"]
     if ctx in BEHAVIOR_CTX and stores:
         ctx = "param"  # behaviors rewrite their local variables: keep such fragments outside
@@ -662,6 +670,7 @@ def fragment_cases():
         "node": st.integers(0, 5000),
         "ctx": st.sampled_from(CONTEXTS),
         "pad": st.integers(0, 3),
+        "prefer_rewrite": st.booleans(),
     })
 
 
